@@ -93,4 +93,14 @@ PROPS = {
             "query parameters are built from the canonical document: top-level scalars, dotted paths into nested objects, repeated values for arrays of scalars, spelled as a query string and re-parsed with net/url",
         ],
     },
+    "C06": {
+        "shards": 16,
+        "level_text": "JSONToProto and QueryToProto are called in journalled child processes on hostile inputs for every modelled type (incl. self-recursive ones): every value site of canonical documents replaced by null/true/0/\"\"/[]/{}/[null]/{\"a\":null}/..., !type-only and odd oneof and Any bodies, duplicate keys, every prefix truncation, 400-digit and huge-exponent numbers, nesting 10..20000 deep, malformed JSON, random bytes, random JSON of the wrong shape; url.Values with empty keys, dotted paths into every field kind, repeated values. Oracle: the call returns success or an error - no panic, no fatal error, CPU time under 2s + 50us/byte.",
+        "level_note": "Totality is observed on generated inputs, not proven; 'no hang' is a CPU work bound; deep (input-proportional) recursion is allowed up to a 768 MiB stack.",
+        "rule": "every (type, input) pair counts as non-trivial unless it is the canonical encoding; distinct by hash of (type, input bytes).",
+        "floors": ["c06:canonical", "c06:replace-value", "c06:null:top", "c06:null:nested", "c06:null:array", "c06:null:map", "c06:null:oneof-arm", "c06:type-only-oneof", "c06:odd-any", "c06:huge-number", "c06:duplicate-key", "c06:truncated", "c06:malformed", "c06:deep-nesting", "c06:random-bytes", "c06:random-json", "c06:wrong-shape", "c06:query-single", "c06:query-repeated", "c06:query-random"],
+        "assumptions": COMMON_ASSUMPTIONS + [
+            "termination is judged by a CPU work bound of 2s + 50us per input byte per call (measured with getrusage in the child); a wall-clock watchdog only yields 'inconclusive'",
+        ],
+    },
 }
